@@ -286,9 +286,11 @@ def run_cases(exe, drv, variant, cases, stats, asan_extra=None, no_alloc=False, 
             starts.append(len(text))
             text.extend(ops)
         script = "\n".join(text) + "\n"
-        env = {}
+        # no legitimate buffer of the simulated camera exceeds 8192*8192*2 bytes: refuse larger requests instead of letting a wrong
+        # clamp take the machine down (realloc then returns NULL and simcam_set reports the failure -> a difference with the model)
+        env = {"ASAN_OPTIONS": C.SAN_ENV["ASAN_OPTIONS"] + ":max_allocation_size_mb=1024:quarantine_size_mb=64"}
         if asan_extra:
-            env["ASAN_OPTIONS"] = C.SAN_ENV["ASAN_OPTIONS"] + ":" + asan_extra
+            env["ASAN_OPTIONS"] += ":" + asan_extra
         rc_i, impl, err_i = C.run_lines(exe, script, timeout=timeout, env=env, args=(["--no-alloc"] if no_alloc else []))
         rc_m, model, err_m = C.run_lines(drv, script, timeout=timeout)
         impl_ops, oracle_at = split_impl(impl)
@@ -415,7 +417,7 @@ def minimise(exe, drv, variant, case, pred, asan_extra, no_alloc):
     def fails(xs):
         return any(pred(p) for p in single(exe, drv, variant, (kind, [head] + xs), asan_extra, no_alloc))
 
-    small = C.ddmin(body, fails, max_runs=60)
+    small = C.ddmin(body, fails, max_runs=30)
     return [head] + small
 
 
@@ -577,10 +579,10 @@ def run(ctx):
             chunk = 1 if name == "big" else 40
             for i in range(0, len(cases), chunk):
                 part = cases[i:i + chunk]
-                problems = run_cases(exe, drv, v, part, stats, asan_extra=asan_extra, no_alloc=no_alloc, timeout=900)
+                problems = run_cases(exe, drv, v, part, stats, asan_extra=asan_extra, no_alloc=no_alloc, timeout=900 if thorough else 240)
                 report(ctx, exe, drv, v, part, problems, asan_extra, no_alloc)
                 ncam += len(part)
-                if len(ctx.violations) + len(ctx.corr_broken) > 6:
+                if len(ctx.violations) + len(ctx.corr_broken) > (6 if thorough else 1):
                     break
             if not samples and name == "sweep":
                 samples = [{"variant": v, "kind": cases[0][0], "ops": [short(o) for o in cases[0][1][:12]]}]
